@@ -10,6 +10,7 @@ CONSTANTS
   Eager = FALSE
   ArmInFlush = TRUE
   WakeAfterPush = TRUE
+  Overflow = FALSE
 SPECIFICATION FairSpec
 INVARIANTS PendingBound TypeOK NeverStuck
 PROPERTIES NoLostWake
